@@ -180,7 +180,7 @@ func decodeOps(c *ev.Case, ctx *lib.Ctx, in []byte, class string) (*diam.Message
 			c.Fail(ev.Sig{"op": "over-allocation", "call": "DecodeAVP/DecodeGrouped"}, body[:min(len(body), 64)], nil, "DecodeAVP+DecodeGrouped allocated %d bytes for %d supplied", alloc, len(body))
 			return nil, false
 		}
-		if a != nil && err == nil && a.Data != nil {
+		if a != nil && err == nil && a.Data != nil && avpDepth([]*diam.AVP{a}) <= 300 {
 			inspectAVP(c, a, class)
 		}
 		if g != nil && avpDepth(g.AVP) <= 300 {
